@@ -393,11 +393,12 @@ class SparselyBin(Factory, Container):
         # >>> np.divide(q,1,q)
         # >>> np.floor(q,q)
         q = np.array(q, dtype=np.float64)
-        neginfs = np.isneginf(q)
-        posinfs = np.isposinf(q)
 
         np.subtract(q, self.origin, q)
         np.divide(q, self.binWidth, q)
+        # saturate like bin(): also a finite value whose index does not fit into an int64 (the cast would make it LONG_NAN)
+        neginfs = q <= LONG_MINUSINF
+        posinfs = q >= LONG_PLUSINF
         np.floor(q, q)
         q = np.array(q, dtype=np.int64)
         q[neginfs] = LONG_MINUSINF
